@@ -276,6 +276,9 @@ func zeroValue(t types.Type) Value {
 		return sv
 	case *types.Array:
 		av := &ArrV{Typ: t}
+		if u.Len() > 64 {
+			return av // large array: all-zero, elements not materialised
+		}
 		for i := int64(0); i < u.Len(); i++ {
 			av.E = append(av.E, zeroValue(u.Elem()))
 		}
